@@ -172,9 +172,11 @@ def record(m, text, neutral=()):
     return {'skel': skeleton(out), 'skel0': skeleton(out0), 'compare': 'no' if '$' in text else 'yes'}, out
 
 
-PAYLOADS = ['a}b', 'a{b', 'a%b', 'a#b', 'a_b', 'a^b', 'a&b', 'a\\b', 'a\\', '\\end{document}', '\\{', '}{', '%}', '\\\\', '~', 'a b', '\\input{x}', '{}', '\\%', 'x\\}']
+PAYLOADS = ['a}b', 'a{b', 'a%b', 'a#b', 'a_b', 'a^b', 'a&b', 'a\\b', 'a\\', '\\end{document}', '\\{', '}{', '%}', '\\\\', '~', 'a b', '\\input{x}', '{}', '\\%', 'x\\}',
+            'a%20}b', '%7E\\input{f}', 'a%2Fb}{c', '%41$1^2', '{inner}', '{target}', '{0}', '%s', '{tag}', 'a%', '%%', '%7B', 'x#y', 'x%23y#z']
 TEMPLATES = ['{p}', '# {p}', '**{p}**', '*{p}*', '~~{p}~~', '[a]({p})', '[{p}](u)', '![a]({p})', '![{p}](x)', '<http://x/{p}>', '```{p}\ncode\n```', '`{p}`',
-             '> {p}', '- {p}', '| {p} |\n|---|\n| {p} |', '    {p}', '```\n{p}\n```', '[a][r]\n\n[r]: {p}', '{p}\n===', '1. {p}', '\\{p}', 'a {p}\\\nb']
+             '> {p}', '- {p}', '| {p} |\n|---|\n| {p} |', '    {p}', '```\n{p}\n```', '[a][r]\n\n[r]: {p}', '{p}\n===', '1. {p}', '\\{p}', 'a {p}\\\nb',
+             '[*c* {x}](/u \'{p}\')', '[**s** 50%]({p})', '[`co` & x][r]\n\n[r]: {p} "t"']
 
 
 def _worker(texts):
